@@ -4,6 +4,7 @@ import (
 	"fmt"
 	"go/token"
 	"go/types"
+	"strings"
 
 	"cffverif/internal/load"
 	"cffverif/internal/report"
@@ -30,6 +31,11 @@ func (m *model) workerBody() *ssa.BasicBlock {
 		return nil
 	}
 	return m.wRecv.Block().Succs[0]
+}
+
+// inAnyLoopOf: in (inside a helper) lies in a loop of its own function, when it is not the root itself.
+func inAnyLoopOf(in, root ssa.Instruction) bool {
+	return in != root && inAnyLoop(in.Block())
 }
 
 func (m *model) inWorkerIter(b *ssa.BasicBlock) bool {
@@ -72,11 +78,13 @@ func (m *model) ruleWorker(s *report.Sink) {
 	}
 	rc := runCalls[0]
 	_, isPlain := rc.in.(*ssa.Call)
-	good := isPlain && rc.in.Parent() == fn && m.inWorkerIter(rc.in.Block()) && m.isFieldOf(rc.cc.Value, jobKey, m.sjRun)
+	rcRoot := m.rootSite(rc.in)
+	_, rootPlain := rcRoot.(*ssa.Call)
+	good := isPlain && rootPlain && rcRoot.Parent() == fn && m.inWorkerIter(rcRoot.Block()) && m.isFieldOf(rc.cc.Value, jobKey, m.sjRun) && !inAnyLoopOf(rc.in, rcRoot)
 	if good {
 		// not inside a nested loop of the iteration (once per received job)
-		for _, su := range rc.in.Block().Succs {
-			if su != m.wLoopHdr && ssax.ReachableAvoiding(su, rc.in.Block(), map[*ssa.BasicBlock]bool{m.wLoopHdr: true}) {
+		for _, su := range rcRoot.Block().Succs {
+			if su != m.wLoopHdr && ssax.ReachableAvoiding(su, rcRoot.Block(), map[*ssa.BasicBlock]bool{m.wLoopHdr: true}) {
 				good = false
 			}
 		}
@@ -97,7 +105,12 @@ func (m *model) ruleWorker(s *report.Sink) {
 	s.Check(inv != nil, "S13", "worker|run dominated by !invalid", m.ipos(rc.in), "an invalidated job is not started", "job.run is reachable for an invalidated job: tasks downstream of a failure run under ContinueOnError")
 	s.Check(len(rc.cc.Args) == 1 && m.isFieldOf(rc.cc.Args[0], jobKey, m.sjCtx), "S13", "worker|run receives the job's own ctx", m.ipos(rc.in), "run(j.ctx)", "job.run is not called with the context given to Enqueue")
 	// the ctx gate must not have been narrowed: the only condition on running is (ctx.Err()==nil && !invalid)
-	iterReg := func(b *ssa.BasicBlock) bool { return body.Dominates(b) && b != m.wLoopHdr }
+	iterReg := func(b *ssa.BasicBlock) bool {
+		if b.Parent() != fn {
+			return true // inside a helper: its whole body belongs to the iteration
+		}
+		return body.Dominates(b) && b != m.wLoopHdr
+	}
 	exact := ctxOK == nil || inv == nil || (len(conds) == 2 && (m.alwaysFrom(inv, rc.in, iterReg) || m.alwaysFrom(ctxOK, rc.in, iterReg)))
 	s.Check(exact, "S13", "worker|no further condition on running a job", m.ipos(rc.in), "a valid job with a live context always runs", "job.run is subject to a further condition ("+atomStrings(conds)+"): some runnable jobs are reported finished without having run")
 
@@ -109,10 +122,10 @@ func (m *model) ruleWorker(s *report.Sink) {
 		}
 	})
 	iterRegion := func(b *ssa.BasicBlock) bool { return body.Dominates(b) && b != m.wLoopHdr }
-	if len(sends) != 1 || !m.inWorkerIter(sends[0].Block()) || !m.mustPass(body, iterRegion, sends[0]) || reachFrom(sends[0].Block(), rc.in.Block()) && ssax.ReachableAvoiding(sends[0].Block().Succs[0], rc.in.Block(), map[*ssa.BasicBlock]bool{m.wLoopHdr: true}) {
+	if len(sends) != 1 || !m.inWorkerIter(sends[0].Block()) || !m.mustPass(body, iterRegion, sends[0]) || reachFrom(sends[0].Block(), rcRoot.Block()) && ssax.ReachableAvoiding(sends[0].Block().Succs[0], rcRoot.Block(), map[*ssa.BasicBlock]bool{m.wLoopHdr: true}) {
 		s.Bad("S14", "worker|one unconditional result per received job", m.ipos(m.wRecv), "the worker loop does not post exactly one result, unconditionally, after the job ran, on its result channel (lost or duplicated results break termination and exactly-once accounting)")
 		m.ruleSentinel(s, nil)
-		m.ruleDeathPath(s, rc.in, nil)
+		m.ruleDeathPath(s, rcRoot, nil)
 		return
 	}
 	send := sends[0]
@@ -140,7 +153,7 @@ func (m *model) ruleWorker(s *report.Sink) {
 	if cell == nil {
 		s.Unk("S14", "worker|result value", m.ipos(send), "sent value is not a local struct variable")
 		m.ruleSentinel(s, nil)
-		m.ruleDeathPath(s, rc.in, send)
+		m.ruleDeathPath(s, rcRoot, send)
 		return
 	}
 	jobStores := m.structFieldStores(cell, m.jrJob, 0)
@@ -162,37 +175,41 @@ func (m *model) ruleWorker(s *report.Sink) {
 		if st.val == nil {
 			continue // zero: Err not set by this whole-struct initialisation
 		}
-		ac := m.atomsSince(st.at, body)
-		switch {
-		case st.val == rc.in.(ssa.Value):
-			s.OK("S14", "worker|Err = value returned by run", m.ipos(st.at), "the job's own error, unwrapped")
-			cats = append(cats, cat{st.at, "run"})
-		case m.isJobCtxErr(st.val, jobKey):
-			nn := find(ac, func(a atom) bool {
-				ok, pol := eqNil(a, func(v ssa.Value) bool { return m.isJobCtxErr(v, jobKey) })
-				return ok && !pol
-			})
-			s.Check(nn != nil, "S14", "worker|Err = ctx error", m.ipos(st.at), "context error for a job not started", "the context error is assigned on a path where it was not found non-nil")
-			cats = append(cats, cat{st.at, "ctx"})
-		case m.isSentinelLoad(st.val):
-			sentinel = st.val.(*ssa.UnOp).X.(*ssa.Global)
-			c := find(ac, func(a atom) bool {
-				ok, val := boolIs(a, func(v ssa.Value) bool { return m.isFieldOf(v, jobKey, m.sjInvalid) })
-				return ok && val
-			})
-			s.Check(c != nil, "S14", "worker|Err = sentinel only for invalid jobs", m.ipos(st.at), "sentinel marks exactly the invalidated jobs", "sentinel error assigned on a path not guarded by j.invalid")
-			cats = append(cats, cat{st.at, "sentinel"})
-		case ssax.IsNilConst(st.val):
-			cats = append(cats, cat{st.at, "nil"})
-		default:
-			s.Bad("S14", "worker|Err = something else", m.ipos(st.at), "result error is neither the ctx error, the sentinel, nor the value returned by run (wrapping or replacing the user's error breaks errors.Is)")
+		base := m.atomsSince(st.at, body)
+		for _, lf := range m.expandPhi(st.val, st.at.Block(), 0) {
+			ac := append(append([]atom(nil), base...), lf.atoms...)
+			at := st.at
+			switch {
+			case lf.val == rc.in.(ssa.Value):
+				s.OK("S14", "worker|Err = value returned by run", m.ipos(at), "the job's own error, unwrapped")
+				cats = append(cats, cat{at, "run"})
+			case m.isJobCtxErr(lf.val, jobKey):
+				nn := find(ac, func(a atom) bool {
+					ok, pol := eqNil(a, func(v ssa.Value) bool { return m.isJobCtxErr(v, jobKey) })
+					return ok && !pol
+				})
+				s.Check(nn != nil, "S14", "worker|Err = ctx error", m.ipos(at), "context error for a job not started", "the context error is assigned on a path where it was not found non-nil")
+				cats = append(cats, cat{at, "ctx"})
+			case m.isSentinelLoad(lf.val):
+				sentinel = lf.val.(*ssa.UnOp).X.(*ssa.Global)
+				c := find(ac, func(a atom) bool {
+					ok, val := boolIs(a, func(v ssa.Value) bool { return m.isFieldOf(v, jobKey, m.sjInvalid) })
+					return ok && val
+				})
+				s.Check(c != nil, "S14", "worker|Err = sentinel only for invalid jobs", m.ipos(at), "sentinel marks exactly the invalidated jobs", "sentinel error assigned on a path not guarded by j.invalid")
+				cats = append(cats, cat{at, "sentinel"})
+			case ssax.IsNilConst(lf.val):
+				cats = append(cats, cat{at, "nil"})
+			default:
+				s.Bad("S14", "worker|Err = something else", m.ipos(at), "result error is neither the ctx error, the sentinel, nor the value returned by run (wrapping or replacing the user's error breaks errors.Is)")
+			}
 		}
 	}
 	// every path of an iteration that does not run the job sets a non-nil Err
 	{
-		avoid := map[*ssa.BasicBlock]bool{m.wLoopHdr: true, rc.in.Block(): true}
+		avoid := map[*ssa.BasicBlock]bool{m.wLoopHdr: true, rcRoot.Block(): true}
 		for _, c := range cats {
-			if c.kind == "ctx" || c.kind == "sentinel" {
+			if c.kind == "ctx" || c.kind == "sentinel" || c.kind == "run" {
 				avoid[c.at.Block()] = true
 			}
 		}
@@ -200,7 +217,7 @@ func (m *model) ruleWorker(s *report.Sink) {
 		s.Check(!silent, "S14", "worker|every skipped job reports why", m.ipos(send), "a job that is not run posts the ctx error or the sentinel", "some path posts a result with a nil error without having run the job: the job counts as succeeded")
 	}
 	m.ruleSentinel(s, sentinel)
-	m.ruleDeathPath(s, rc.in, send)
+	m.ruleDeathPath(s, rcRoot, send)
 }
 
 // S24 sentinel confinement.
@@ -257,6 +274,17 @@ func (m *model) ruleSentinel(s *report.Sink, sentinel *ssa.Global) {
 									good = false
 								}
 								why = "loop compares against it"
+							case *ssa.Return:
+								// returned by a single-site helper of the worker (its result becomes the posted error)
+								if m.rootSite(y).Parent() != m.fnWorker || m.rootSite(y) == ssa.Instruction(y) {
+									good = false
+								}
+								why = "worker's helper returns it as the result error"
+							case *ssa.Phi:
+								if m.rootSite(y).Parent() != m.fnWorker {
+									good = false
+								}
+								why = "merged into the result error"
 							case *ssa.DebugRef:
 							default:
 								good = false
@@ -310,17 +338,17 @@ func (m *model) ruleDeathPath(s *report.Sink, runCall ssa.Instruction, send *ssa
 	// the exitCleanly cell: bool cell of the worker read by the handler's guard
 	sconds := userAtoms(m.localAtoms(dsend.Block()))
 	gconds := userAtoms(m.localAtoms(dgo.Block()))
+	// a cell of the worker: a local variable (or a field of a local struct) of the worker function,
+	// also when reached through a captured variable or through the receiver/parameter of the handler
+	workerCell := func(addr ssa.Value) bool {
+		k := m.key(addr)
+		return strings.Contains(k, "alloc:") && strings.Contains(k, "@"+fn.String())
+	}
 	var exitCell ssa.Value
 	for _, c := range sconds {
 		if c.op == "bool" && !c.pol {
-			if u, ok := c.av.(*ssa.UnOp); ok && u.Op == token.MUL {
-				cellv := u.X
-				if fv, ok := cellv.(*ssa.FreeVar); ok {
-					cellv = ssax.BindingOf(fv)
-				}
-				if a, ok := cellv.(*ssa.Alloc); ok && a.Parent() == fn && isBool(ssax.Deref(a.Type())) {
-					exitCell = a
-				}
+			if u, ok := c.av.(*ssa.UnOp); ok && u.Op == token.MUL && workerCell(u.X) && isBool(ssax.Deref(u.X.Type())) {
+				exitCell = u.X
 			}
 		}
 	}
@@ -338,15 +366,9 @@ func (m *model) ruleDeathPath(s *report.Sink, runCall ssa.Instruction, send *ssa
 			if st.val == nil {
 				continue
 			}
-			if l, ok := st.val.(*ssa.UnOp); ok && l.Op == token.MUL {
-				cellv := l.X
-				if fv, ok := cellv.(*ssa.FreeVar); ok {
-					cellv = ssax.BindingOf(fv)
-				}
-				if a, ok := cellv.(*ssa.Alloc); ok && a.Parent() == fn {
-					curCell = a
-					okJob = true
-				}
+			if l, ok := st.val.(*ssa.UnOp); ok && l.Op == token.MUL && workerCell(l.X) {
+				curCell = l.X
+				okJob = true
 			}
 		}
 		for _, st := range m.structFieldStores(u.X, m.jrErr, 0) {
@@ -415,28 +437,9 @@ func (m *model) ruleDeathPath(s *report.Sink, runCall ssa.Instruction, send *ssa
 					}
 				}
 			}
-			// ... and cleared between run and the normal post on every path
-			avoid := map[*ssa.BasicBlock]bool{m.wLoopHdr: true}
-			cleared := true
-			for _, y := range setNil {
-				if y.Block() == runCall.Block() && ssax.InstrIndex(y) > ssax.InstrIndex(runCall) {
-					avoid[runCall.Block()] = true // cleared right after the call in the same block
-				} else if y.Block() == send.Block() && ssax.InstrIndex(y) < ssax.InstrIndex(send) {
-					avoid[send.Block()] = true
-				} else if y.Block() != runCall.Block() && y.Block() != send.Block() {
-					avoid[y.Block()] = true
-				}
-			}
-			if !avoid[runCall.Block()] && !avoid[send.Block()] {
-				for _, su := range runCall.Block().Succs {
-					if ssax.ReachableAvoiding(su, send.Block(), avoid) {
-						cleared = false
-					}
-				}
-				if runCall.Block() == send.Block() {
-					cleared = false
-				}
-			}
+			// ... and cleared between run and the normal post on every path: the post is not reachable from the
+			// run call without executing one of the clearing stores
+			cleared := !reachAvoiding(runCall, send, setNil)
 			good = dom && cleared
 		}
 		s.Check(good, "S15", "worker|currentJob tracks the running job", m.ipos(runCall), "currentJob = j before run, nil after run and before the normal post", "currentJob is not (only) set to the received job before run and cleared between run and the normal result post: the death path would report the wrong job or one job twice")
@@ -444,3 +447,46 @@ func (m *model) ruleDeathPath(s *report.Sink, runCall ssa.Instruction, send *ssa
 }
 
 var _ = types.Identical
+
+// reachAvoiding: `to` can be reached from just after `from` without executing any instruction of `avoid`.
+func reachAvoiding(from, to ssa.Instruction, avoid []ssa.Instruction) bool {
+	type pos struct {
+		b *ssa.BasicBlock
+		k int
+	}
+	av := map[ssa.Instruction]bool{}
+	for _, a := range avoid {
+		av[a] = true
+	}
+	succs := func(p pos) []pos {
+		if p.k+1 < len(p.b.Instrs) {
+			return []pos{{p.b, p.k + 1}}
+		}
+		var out []pos
+		for _, sb := range p.b.Succs {
+			if len(sb.Instrs) > 0 {
+				out = append(out, pos{sb, 0})
+			}
+		}
+		return out
+	}
+	seen := map[pos]bool{}
+	stack := succs(pos{from.Block(), ssax.InstrIndex(from)})
+	for len(stack) > 0 {
+		p := stack[len(stack)-1]
+		stack = stack[:len(stack)-1]
+		if seen[p] {
+			continue
+		}
+		seen[p] = true
+		in := p.b.Instrs[p.k]
+		if in == to {
+			return true
+		}
+		if av[in] {
+			continue
+		}
+		stack = append(stack, succs(p)...)
+	}
+	return false
+}
